@@ -28,6 +28,7 @@ def run(db, chk):
     preprocess_first_rule(db, chk)
     packable_pairing_rule(db, chk)
     split_expectation_rule(db, chk)
+    lock_boundary_rule(db, chk)
     log_mode_rule(db, chk)
     f = db.one(F)
     fl = Flow(f)
@@ -285,3 +286,37 @@ def split_expectation_rule(db, chk):
                "the referent's edit gets a copy of the expectation (%s) while the log-only parent keeps it: the parent compares the symbolic ref with an object id and the transaction always fails" % (sorted(x.split("::")[-1] for x in calls_)[:3],),
                "%s:%d" % (f.file, ln), key="split-expectation|%s" % rv[3])
     chk.floor("extend_with_splits: child edits built (Update and Delete arm)", n, 2)
+
+
+def lock_boundary_rule(db, chk):
+    """when a ref lock is dropped, the directories that were (or became) empty above it are removed up to a boundary.  git does not recognise a
+    directory without `refs/` as a repository, so for references inside refs/ that boundary must lie inside refs/: deleting the last branch and
+    the last tag must not take `.git/refs` with it.  In lock_ref_and_apply_change the boundary handed to gix_lock::{Marker,File}::acquire_*
+    derives from a join with the constant `refs` (directly or through a helper), never from the bare base directory."""
+    f = db.one(r"::lock_ref_and_apply_change$")
+    fl = Flow(f)
+    acq = [c for c in f.calls() if c.is_(r"gix_lock::acquire::<impl gix_lock::(Marker|File)>::acquire_to_(hold|update)_resource$|::acquire_to_(hold|update)_resource$")]
+    fam = [f] + list(db.closures_of(f))
+    acq = [(g, c) for g in fam for c in g.calls() if c.is_(r"::acquire_to_(hold|update)_resource$")]
+    chk.floor("lock_ref_and_apply_change: lock acquisitions", len(acq), 2)
+
+    def joins_refs(g, depth=0):
+        """does g (or a workspace helper it calls) join a path with the constant `refs`?"""
+        gfl = Flow(g)
+        for c in g.calls():
+            if c.is_(r"Path::join$|PathBuf::push$") and len(c.args) > 1 and any(r[0] == "const" and r[1] in (b"refs", "refs") for r in gfl.roots(c.args[1], stop_named=False)):
+                return True
+        return False
+    for g, c in acq:
+        gfl = Flow(g)
+        ok = False
+        for r in gfl.roots(c.args[2], stop_named=False) if len(c.args) > 2 and "p" in c.args[2] else []:
+            if r[0] == "const" and r[1] in (b"refs", "refs"):
+                ok = True
+            if r[0] == "call":
+                h = [x for x in db.by_crate["gix_ref"] if x.name == r[1] and x.kind != "promoted"]
+                if h and joins_refs(h[0]):
+                    ok = True
+        chk.ob("lock-cleanup-stops-inside-refs", "lock_ref_and_apply_change %s@%d" % (c.name.split("::")[-1], c.line), ok,
+               "the cleanup boundary of the reference lock is the repository directory itself: after the last branch and the last tag are deleted the empty `refs` directory is removed too and git no longer recognises the repository",
+               c.where(), key="lock-boundary|%s" % c.name.split("::")[-1])
